@@ -68,6 +68,7 @@ void	sc_note(const char *fmt, ...);		/* diagnostics only: NOT part of the outcom
 void	sc_fail(const char *clause, const char *fmt, ...); /* oracle violation: records and ends the execution */
 void	sc_point(const char *tag);		/* plain scheduling point (always enabled) */
 void	sc_wait_quiescent(void);		/* block until no other thread is enabled (all blocked or finished) */
+extern int sc_small_pipes;	/* set before the pool is created: pipes hold one page (128 message packets) */
 void	sc_gate_wait(volatile int *flag, const char *tag); /* block until *flag != 0 (set by another thread) */
 int	sc_choose(int nalts, const char *tag);	/* environment choice: 0 = default, others cost one deviation */
 void	sc_yield(const char *tag);		/* harness-level yield point (same rule as sched_yield) */
